@@ -57,7 +57,7 @@ def cleanup() -> None:
     _scratch_root = None
 
 
-def _java(args, env=None, timeout=600, heap="8g", deque=False, serial=False):
+def _java(args, env=None, timeout=600, heap="4g", deque=False, serial=False):
     cmd = ["java", "-XX:+UseSerialGC" if serial else "-XX:+UseParallelGC", f"-Xmx{heap}"]
     if not serial:
         cmd.append("-XX:ParallelGCThreads=8")
@@ -107,7 +107,7 @@ def parse_coverage(out: str, module: str | None = None) -> dict:
 
 
 def check_model(module: str, cfg: str | None = None, *, workers: int = 16, timeout: int = 900,
-                coverage: bool = True, env: dict | None = None, heap: str = "12g",
+                coverage: bool = True, env: dict | None = None, heap: str = "6g",
                 extra: list | None = None) -> ModelResult:
     """Exhaustive TLC run of specs/<module>.tla with specs/<cfg>.cfg."""
     meta = tempfile.mkdtemp(prefix="meta-", dir=scratch())
@@ -238,10 +238,24 @@ class Validation:
     wall_s: float
     cmd: str
     out: str = ""
+    prints: list = field(default_factory=list)  # other <<"TAG", tid, ...>> tuples the trace spec printed
 
 
 _ACC = re.compile(r'<<"ACC", (-?\d+)>>')
 _AT = re.compile(r'<<"AT", (-?\d+), (\d+)>>')
+_TAGGED = re.compile(r'^<<"([A-Z0-9_]+)", .*>>\s*$', re.M)
+
+
+def _tagged(out: str) -> list:
+    res = []
+    for m in _TAGGED.finditer(out):
+        if m.group(1) in ("ACC", "AT"):
+            continue
+        try:
+            res.append(tlaval.parse(m.group(0).strip()))
+        except tlaval.ParseError:
+            pass
+    return res
 
 
 def _run_trace_tlc(module, cfg, trace_file, timeout, diag=False, deque=True, extra_env=None):
@@ -287,6 +301,7 @@ def validate(module: str, cfg: str, traces: list, *, timeout: int = 900, shards:
     wall = 0.0
     cmd = ""
     outs = []
+    prints = []
     t0 = time.time()
     with cf.ThreadPoolExecutor(max_workers=shards) as ex:
         futs = [ex.submit(_run_trace_tlc, module, cfg, f, timeout, False, True, extra_env) for f in files]
@@ -297,6 +312,7 @@ def validate(module: str, cfg: str, traces: list, *, timeout: int = 900, shards:
             gen += g
             dist += dd
             accepted |= {int(m.group(1)) for m in _ACC.finditer(out)}
+            prints += _tagged(out)
     wall = time.time() - t0
     rejected = {}
     rej = [t for t in traces if t["tid"] not in accepted]
@@ -314,4 +330,4 @@ def validate(module: str, cfg: str, traces: list, *, timeout: int = 900, shards:
             rejected[t["tid"]] = {"reached": reach.get(t["tid"], 0), "len": len(t["ev"])}
     shutil.rmtree(d, ignore_errors=True)
     return Validation(total=len(traces), accepted=accepted, rejected=rejected, generated=gen,
-                      distinct=dist, wall_s=wall, cmd=cmd, out=outs[0][-2000:] if outs else "")
+                      distinct=dist, wall_s=wall, cmd=cmd, out=outs[0][-2000:] if outs else "", prints=prints)
